@@ -30,11 +30,11 @@ func init() {
 			"(D3) after every wake-up the waiter re-observes emptiness (Len, or a nil-tested Front/Back) before any removal; " +
 			"(D4) every insertion is followed on every path by a wake-up send, or preceded by one inside the same uninterrupted critical section; " +
 			"(D5) the blocking wait also listens to ctx.Done(), a wait ended by cancellation cannot re-enter the wait without testing ctx.Err(), the exit taken on cancellation returns the zero item and false, and an item is removed and handed out only after the context was tested since the last blocking point (function entry or the wait; ctx.Err() feeding a branch or a non-blocking ctx.Done() case), the cancelled side of that test removing nothing - so a wait whose context is already cancelled returns 'no item' even when items are pending. " +
-			"PriorityQueue: (D6) Less, interpreted concretely (integer arithmetic with wrap-around, conversions, comparisons, cmp.Compare) on 64 pairs of uint64 counters including values 2^63 and more apart, is true for every counter(i)<counter(j) and false for every counter(i)>counter(j) (a signed-difference comparison is reported as not a total order), Swap exchanges both elements, Push appends its argument, Pop returns and removes the last element; container/heap operations on the queue run under the write lock; Push/Pop/Swap are never called directly by module code (only through container/heap); Add pushes its argument through heap.Push on every path; the items handed out by Next/NextAll are results of heap.Pop; the backing slice is not written outside the heap.Interface methods and is read only under the lock. " +
+			"PriorityQueue: (D6) Less, interpreted concretely (integer arithmetic with wrap-around, conversions, comparisons, cmp.Compare) on 64 pairs of uint64 counters including values 2^63 and more apart, is true for every counter(i)<counter(j) and false for every counter(i)>counter(j) (a signed-difference comparison is reported as not a total order), Swap exchanges both elements, Push appends its argument, Pop returns and removes the last element; container/heap operations on the queue run under the write lock; Push/Pop/Swap are never called directly by module code (only through container/heap); Add pushes its argument through heap.Push on every path; the items handed out by Next/NextAll are results of heap.Pop; Len returns the length of the backing slice; NextAll, interpreted concretely for queues of 0..5 items with a callback that returns nil (len/Len() = current size, heap.Pop/Push change it, local cells and loop counters computed), returns nil only with the queue empty, never pops an empty queue and hands every popped item to the callback - the contract C08 relies on ('on a nil return nothing stays parked'); the backing slice is not written outside the heap.Interface methods and is read only under the lock. " +
 			"Not decided: the exhaustive interleaving exploration the property asks for (only the listed lost-wake-up, ordering and locking shapes are decided), fairness/liveness of the Go scheduler, behaviour with more than one consumer (a single wake-up token is enough for one consumer only), correctness of container/list and container/heap themselves, what the callers in store_message.go do with the items.",
 		Trusted:     []string{"golang.org/x/tools go/packages+go/ssa (v0.29.0)", "container/list, container/heap, sync.Mutex/RWMutex, channel and select semantics of the Go runtime", "lock identity by owner type + field (methods touch only their receiver's fields)"},
 		Assumptions: []string{"one consumer per SimpleQueue (as in MessageStore.processMessageLoop)", "queue fields are unexported, so the functions of package internal/queue are all the code that can touch them"},
-		Floors:      map[string]int{"D1": 10, "D2": 1, "D3": 1, "D4": 1, "D5": 4, "D6": 17},
+		Floors:      map[string]int{"D1": 10, "D2": 1, "D3": 1, "D4": 1, "D5": 4, "D6": 19},
 		Run:         runC15,
 	})
 }
@@ -1467,6 +1467,8 @@ func (e *c15Env) runPriority(named *types.Named) {
 	p.ruleDirectCalls()
 	p.ruleItems()
 	p.ruleAPI()
+	p.ruleLen()
+	p.ruleDrain()
 }
 
 func (p *c15Prio) isItems(v ssa.Value) bool {
@@ -1618,7 +1620,7 @@ func (ev *c15LessEval) val(v ssa.Value, depth int) (c15Num, bool) {
 	switch x := v.(type) {
 	case *ssa.Const:
 		if x.Value == nil {
-			return ev.fail(v, "non-numeric constant")
+			return c15Num{0, 64, false}, true // nil (error, pointer, interface)
 		}
 		switch x.Value.Kind() {
 		case constant.Bool:
@@ -2324,4 +2326,191 @@ func (p *c15Prio) ruleAPI() {
 			c.ok("D6", construct, fn.Pos(), "every item handed out is the result of heap.Pop")
 		}
 	}
+}
+
+// D6 Len returns the length of the backing slice
+func (p *c15Prio) ruleLen() {
+	c := p.e.c
+	fn := p.heapM["Len"]
+	construct := fnName(fn) + "+length of the backing slice"
+	good, n := true, 0
+	for _, r := range returnsOf(fn) {
+		for _, v := range retResults(r) {
+			leaves, zero := c15Leaves(v)
+			if zero {
+				good = false
+			}
+			for _, lf := range leaves {
+				n++
+				call, ok := lf.(*ssa.Call)
+				if !ok || calleeKey(call.Common()) != "builtin.len" || len(call.Common().Args) != 1 || !p.itemsLoad(call.Common().Args[0]) {
+					good = false
+				}
+			}
+		}
+	}
+	if good && n > 0 {
+		c.ok("D6", construct, fn.Pos(), "Len returns len(items)")
+	} else {
+		c.fail("D6", construct, fn.Pos(), "Len does not return len(items): container/heap sifts over the wrong range (items beyond it are never ordered or yielded) and drain loops bounded by Len stop early")
+	}
+}
+
+// D6 NextAll drains the queue: concrete interpretation for small queue sizes.
+func (p *c15Prio) ruleDrain() {
+	c := p.e.c
+	tn := p.named.Obj().Name()
+	fn := p.e.w.lookupMethod(c15PkgQueue, tn, "NextAll")
+	if fn == nil || fn.Blocks == nil {
+		return // reported by the API rule
+	}
+	construct := fnName(fn) + "+drains the queue"
+	lenKey := funcKey(p.heapM["Len"])
+	for n := 0; n <= 5; n++ {
+		ev := &c15LessEval{p: p, fn: fn, env: map[ssa.Value]c15Num{}}
+		mem := map[*ssa.Alloc]c15Num{}
+		count, handed, popped := n, 0, 0
+		try := func(v ssa.Value) (c15Num, bool) {
+			w, a := ev.why, ev.at
+			r, ok := ev.val(v, 0)
+			if !ok {
+				ev.why, ev.at = w, a
+			}
+			return r, ok
+		}
+		b, prev := fn.Blocks[0], (*ssa.BasicBlock)(nil)
+		done := false
+		for steps := 0; steps < 400 && !done; steps++ {
+			if prev != nil {
+				idx := -1
+				for i, pr := range b.Preds {
+					if pr == prev {
+						idx = i
+					}
+				}
+				vals := map[ssa.Value]c15Num{}
+				var unknown []ssa.Value
+				for _, in := range b.Instrs {
+					ph, ok := in.(*ssa.Phi)
+					if !ok {
+						break
+					}
+					if r, ok := try(ph.Edges[idx]); ok && idx >= 0 {
+						vals[ph] = r
+					} else {
+						unknown = append(unknown, ph)
+					}
+				}
+				for _, u := range unknown {
+					delete(ev.env, u)
+				}
+				for k, r := range vals {
+					ev.env[k] = r
+				}
+			}
+			var next *ssa.BasicBlock
+			for _, in := range b.Instrs {
+				switch x := in.(type) {
+				case *ssa.Phi:
+				case *ssa.Alloc:
+					mem[x] = c15Num{0, 64, false}
+				case *ssa.Store:
+					if al, ok := x.Addr.(*ssa.Alloc); ok {
+						if r, ok := try(x.Val); ok {
+							mem[al] = r
+						} else {
+							delete(mem, al)
+						}
+					}
+				case *ssa.UnOp:
+					delete(ev.env, x)
+					if al, ok := x.X.(*ssa.Alloc); ok && x.Op == token.MUL {
+						if r, ok := mem[al]; ok {
+							ev.env[x] = r
+						}
+					}
+				case *ssa.Call:
+					delete(ev.env, x)
+					cc := x.Common()
+					key := calleeKey(cc)
+					hname, _ := p.heapCallOn(x)
+					switch {
+					case key == "builtin.len" && len(cc.Args) == 1 && p.itemsLoad(cc.Args[0]):
+						ev.env[x], _ = c15NumOf(x.Type(), uint64(count))
+					case !cc.IsInvoke() && staticCallee(cc) != nil && funcKey(staticCallee(cc)) == lenKey:
+						ev.env[x], _ = c15NumOf(x.Type(), uint64(count))
+					case hname == "Pop" || hname == "Remove":
+						if count == 0 {
+							c.fail("D6", construct, posOf(x), "with %d queued item(s) NextAll calls heap.%s on an empty queue (Swap(0,-1) panics): the loop does not pop exactly one item per emptiness test", n, hname)
+							return
+						}
+						count--
+						popped++
+					case hname == "Push":
+						count++
+					case !cc.IsInvoke() && c15ParamIndex(fn, cc.Value) > 0:
+						handed++
+						ev.env[x] = c15Num{0, 64, false} // the callback reports no error
+					}
+				case *ssa.BinOp, *ssa.Convert, *ssa.ChangeType:
+					v := in.(ssa.Value)
+					delete(ev.env, v)
+					if r, ok := try(v); ok {
+						ev.env[v] = r
+					}
+				case *ssa.If:
+					r, ok := ev.val(x.Cond, 0)
+					if !ok {
+						c.undecided("D6", construct, posOf(x), "NextAll could not be interpreted: a branch condition does not depend only on the queue length, loop counters and the callback's result (%s)", ev.why)
+						return
+					}
+					if r.bits != 0 {
+						next = b.Succs[0]
+					} else {
+						next = b.Succs[1]
+					}
+				case *ssa.Jump:
+					next = b.Succs[0]
+				case *ssa.Return:
+					done = true
+					if len(x.Results) != 1 {
+						c.undecided("D6", construct, posOf(x), "NextAll does not return a single error")
+						return
+					}
+					r, ok := ev.val(x.Results[0], 0)
+					if !ok {
+						c.undecided("D6", construct, posOf(x), "NextAll could not be interpreted: the returned error is not determined by the callback's result (%s)", ev.why)
+						return
+					}
+					if r.bits != 0 {
+						c.undecided("D6", construct, posOf(x), "NextAll returns a non-nil error although the callback reported none")
+						return
+					}
+					if count != 0 {
+						c.fail("D6", construct, posOf(x), "NextAll returns nil with %d of %d queued item(s) still in the queue (the callback never failed): the drain loop stops early - e.g. a bound compared with a length that shrinks while the index grows - so parked messages above the lowest counters are never handed over, while callers treat a nil return as 'queue drained'", count, n)
+						return
+					}
+					if handed != popped {
+						c.fail("D6", construct, posOf(x), "NextAll pops %d item(s) of %d but hands only %d to the callback: popped items are lost", popped, n, handed)
+						return
+					}
+				case *ssa.Panic:
+					c.undecided("D6", construct, posOf(x), "NextAll panics in the interpreted run")
+					return
+				}
+			}
+			if !done {
+				if next == nil {
+					c.undecided("D6", construct, fn.Pos(), "control flow of NextAll not modelled")
+					return
+				}
+				prev, b = b, next
+			}
+		}
+		if !done {
+			c.fail("D6", construct, fn.Pos(), "with %d queued item(s) and a callback that never fails NextAll does not return within the interpretation budget: the drain loop does not make progress", n)
+			return
+		}
+	}
+	c.ok("D6", construct, fn.Pos(), "interpreted for 0..5 queued items with a callback that never fails: returns nil only with the queue empty, one heap.Pop per emptiness test, every popped item handed to the callback")
 }
